@@ -487,7 +487,7 @@ def build():
     u.env("backend_specs2.rs")
     # take_single_file (mod.rs)
     u.extracted_fn(mod, "take_single_file", contract="""
-        ensures match files { Some(v) => if v@.len() == 1 { r is Some && r->Some_0.id@ == v@[0].id@ } else { r is None }, None => r is None } // [C09,C02]""")
+        ensures match files { Some(v) => if v@.len() == 1 { r is Some && r->Some_0.id@ == v@[0].id@ } else { r is None }, None => r is None } // [C09,C02,C05] exactly one descriptor, or none is taken""")
     span = brh.impl_span(r'impl<S: VhostUserBackendReqHandler> BackendReqHandler<S>$')
     u.raw("impl BackendReqHandler {")
     for name, kw in HELPERS:
